@@ -52,6 +52,8 @@ def pcName : UPc → String
 def step (x : S) (ws : List String) : Option (S × String × List String) :=
   match ws with
   | ["run", _, _, _] => ok {}
+  | ["forced", _, _] => ok {}
+  | ["forced", a] => ok x (if a == "held=true" then ["forced_schedule_reached"] else ["forced_schedule_not_reached"])
   -- ---- Send
   | ["sendcall", s, v] => do
     let v ← kv v "v"
